@@ -230,6 +230,27 @@ def weights_exact(spec):
     return w is None or not bool(np.any((np.asarray(w, dtype=float) * 8) % 1 != 0))
 
 
+def sums_exact(spec):
+    """True when every sum of weights is exact in binary floating point whatever the order of
+    summation: all weights are integer multiples of one power of two q and their total is
+    below 2^53 q (covers the dyadic modes incl. 'scales' and 'tiny', not 'float')."""
+    import math
+
+    w = spec.weight
+    if w is None:
+        return True
+    w = [abs(float(x)) for x in np.asarray(w, dtype=float) if x != 0]
+    if not w:
+        return True
+    lows = []
+    for x in w:
+        m, e = math.frexp(x)
+        mi = int(m * (1 << 53))
+        lows.append(e - 53 + (mi & -mi).bit_length() - 1)
+    q = min(lows)
+    return sum(w) < 2.0 ** (53 + q)
+
+
 def add_first_element_difference(g, facets, transforms, which=("rows", "cols")):
     """Append a difference whose only subtrahend is the *first* valid category (offset 0 among
     the valid elements: `any([0])` is False) and whose addends are other categories."""
